@@ -2251,9 +2251,20 @@ impl PropertyStorage {
                     }
                 }
 
-                // Key doesn't exist - try to add inline
-                if let Some(slot) = entries.get_mut(current_len) {
-                    *slot = (key, value);
+                // Key doesn't exist - try to add inline (integer keys stay first, ascending)
+                if current_len < INLINE_PROPERTY_CAPACITY {
+                    let pos = Self::position_for_new_key(
+                        entries.get(..current_len).unwrap_or_default().iter().map(|e| &e.0),
+                        &key,
+                        current_len,
+                    );
+                    if let Some(tail) = entries.get_mut(pos..current_len + 1) {
+                        // shift the entries after the insertion point up by one
+                        tail.rotate_right(1);
+                        if let Some(slot) = tail.first_mut() {
+                            *slot = (key, value);
+                        }
+                    }
                     *len += 1;
                     return None;
                 }
@@ -2267,11 +2278,35 @@ impl PropertyStorage {
                     );
                     map.insert(k, v);
                 }
-                map.insert(key, value);
+                let pos = Self::position_for_new_key(map.keys(), &key, map.len());
+                map.shift_insert(pos, key, value);
                 *self = PropertyStorage::Map(map);
                 None
             }
-            PropertyStorage::Map(map) => map.insert(key, value),
+            PropertyStorage::Map(map) => {
+                if matches!(key, PropertyKey::Index(_)) && !map.contains_key(&key) {
+                    let pos = Self::position_for_new_key(map.keys(), &key, map.len());
+                    map.shift_insert(pos, key, value)
+                } else {
+                    map.insert(key, value)
+                }
+            }
+        }
+    }
+
+    /// Where a key that is not present yet goes: own keys enumerate integer keys first in
+    /// ascending order, then the other keys in creation order (OrdinaryOwnPropertyKeys),
+    /// so a new integer key is placed among the leading integer keys, anything else last.
+    fn position_for_new_key<'k>(
+        keys: impl Iterator<Item = &'k PropertyKey>,
+        key: &PropertyKey,
+        len: usize,
+    ) -> usize {
+        match key {
+            PropertyKey::Index(new) => keys
+                .take_while(|k| matches!(k, PropertyKey::Index(i) if i < new))
+                .count(),
+            _ => len,
         }
     }
 
